@@ -266,7 +266,21 @@ func (e *Enc) cover(name string, cond T) {
 // ------------------------------------------------------------------ state vars
 
 // immutableKey: a heap field declared immutable (set only by the constructor).
+func (e *Enc) declaredImmutable(k string) bool {
+	for _, p := range e.L.Contracts.Immutable {
+		if strings.HasPrefix(k, p) && (len(k) == len(p) || k[len(p)] == '.') {
+			return true
+		}
+	}
+	return false
+}
+
 func (e *Enc) immutableKey(k string) bool {
+	for _, p := range e.L.Contracts.Stable {
+		if strings.HasPrefix(k, p) && (len(k) == len(p) || k[len(p)] == '.') {
+			return true
+		}
+	}
 	for _, p := range e.L.Contracts.Immutable {
 		if strings.HasPrefix(k, p) && (len(k) == len(p) || k[len(p)] == '.') {
 			return true
@@ -424,7 +438,7 @@ func (e *Enc) storeTo(p Ptr, t types.Type, v Val) {
 		ts := e.flatten(t, v)
 		for i, l := range ls {
 			key := heapKey(p.Obj, joinLeaf(prefix, l.Name))
-			if e.immutableKey(key) && e.dry == 0 && len(e.frames) > 0 && !strings.Contains(e.frames[0].name, ".New") {
+			if e.declaredImmutable(key) && e.dry == 0 && len(e.frames) > 0 && !strings.Contains(e.frames[0].name, ".New") {
 				// only freshly allocated objects (constructors) may set an immutable field
 				e.oblige("frame", e.frames[0].name+"/frame.immutable."+strings.TrimPrefix(key, "H|"), ule(e.frames[0].entryAllocRef, p.Ref), 0)
 			}
@@ -748,6 +762,9 @@ func (e *Enc) runBody(fn *ssa.Function, args []Val, bind []Val, top bool, con *C
 		} else {
 			f.vals[p] = e.freshVal(p.Type(), p.Name())
 		}
+	}
+	if con != nil && con.NoSwallow {
+		e.setVar("G|loc_failed", bv64(0))
 	}
 	f.entrySt = e.cur.clone()
 	f.entryAllocRef = e.cur.allocRef
@@ -1083,6 +1100,9 @@ func (e *Enc) instr(f *frame, b *ssa.BasicBlock, in ssa.Instruction) {
 		if r != nil {
 			f.vals[x] = r
 		}
+		if f.con != nil && f.con.NoSwallow && r != nil {
+			e.trackFailure(f, x, r)
+		}
 	case *ssa.Convert:
 		f.vals[x] = e.convert(e.val(x.X), x.X.Type(), x.Type())
 	case *ssa.ChangeType:
@@ -1160,6 +1180,15 @@ func (e *Enc) instr(f *frame, b *ssa.BasicBlock, in ssa.Instruction) {
 		for _, r := range x.Results {
 			vs = append(vs, e.val(r))
 		}
+		if f.con != nil && f.con.NoSwallow && len(vs) > 0 && e.dry == 0 {
+			if errv, ok := vs[len(vs)-1].(Ifc); ok {
+				key := "G|loc_failed"
+				failed := e.getVar(e.cur, key, SBV64)
+				n := f.nsafety["noswallow"]
+				f.nsafety["noswallow"]++
+				e.oblige("post", fmt.Sprintf("%s/%s.noswallow#%d", e.frames[0].name, f.name, n), implies(not(eq(failed, bv64(0))), not(eq(errv.Id, bv64(0)))), x.Pos())
+			}
+		}
 		f.rets = append(f.rets, retInfo{cond: e.reach, vals: vs, st: e.cur.clone()})
 	case *ssa.SliceToArrayPointer, *ssa.MultiConvert:
 		e.abstract(fmt.Sprintf("%T", in))
@@ -1170,6 +1199,29 @@ func (e *Enc) instr(f *frame, b *ssa.BasicBlock, in ssa.Instruction) {
 			f.vals[v] = e.freshVal(v.Type(), v.Name())
 		}
 	}
+}
+
+// trackFailure: a callee returned an error value; remember whether it was non-nil.
+func (e *Enc) trackFailure(f *frame, call *ssa.Call, r Val) {
+	res := call.Common().Signature().Results()
+	if res.Len() == 0 {
+		return
+	}
+	last := res.At(res.Len() - 1).Type()
+	if n, ok := last.(*types.Named); !ok || n.Obj().Name() != "error" || n.Obj().Pkg() != nil {
+		return
+	}
+	var errv Val = r
+	if t, ok := r.(Tup); ok {
+		errv = t.V[len(t.V)-1]
+	}
+	i, ok := errv.(Ifc)
+	if !ok {
+		return
+	}
+	key := "G|loc_failed"
+	failed := e.getVar(e.cur, key, SBV64)
+	e.setVar(key, ite(eq(i.Id, bv64(0)), failed, bv64(1)))
 }
 
 func (e *Enc) nilCheck(f *frame, p Ptr, pos token.Pos) {
